@@ -91,7 +91,21 @@ func ruleLexPos(c *Ctx) {
 				nOwners++
 				c.ok(key, st.Pos(), "next() is the owner of the cursor and position fields")
 			case fresh:
-				c.ok(key, st.Pos(), "initialisation of a fresh Lexer")
+				// a fresh Lexer starts at offset 0, line 1, column 1: the initial values must be those constants, so
+				// that "nextPos is the position of src[offset]" holds before the first next()
+				initOK := true
+				if k, isK := st.Val.(*ssa.Const); isK && k.Value != nil {
+					v := k.Value.ExactString()
+					switch f {
+					case "offset":
+						initOK = v == "0"
+					case "nextPos", "pos":
+						initOK = v == "1" || v == "0"
+					}
+				} else if f == "offset" || f == "nextPos" {
+					initOK = false
+				}
+				c.check(initOK, key, st.Pos(), "initialisation of a fresh Lexer (offset 0 at line 1, column 1)", fnKey(fn)+" initialises Lexer."+f+" of a fresh Lexer to something other than the start of the source: offset and line/column are out of step from the first token on, so every position on the first line is wrong")
 			default:
 				c.bad(key, st.Pos(), "%s writes Lexer.%s outside next(): the position bookkeeping (nextPos = line/column of src[offset]) is only maintained by next(); adjusting it by hand is wrong whenever the adjusted character is a newline or carriage return", fnKey(fn), f)
 			}
